@@ -140,4 +140,6 @@ class JWTClaimsRegistry(ClaimsRegistry):
 
 
 def _validate_numeric_time(s: int) -> bool:
-    return isinstance(s, (int, float))
+    # a NumericDate is a JSON number: neither true/false nor the NaN and
+    # Infinity literals that ``json.loads`` lets through
+    return isinstance(s, (int, float)) and not isinstance(s, bool) and s == s and abs(s) != float("inf")
